@@ -43,6 +43,8 @@ else:
 PY
 done
 git checkout --ours tools/props.py 2>/dev/null || true
+# continuation merges: take the workspace's version of its own props.d / evidence files
+for f in $(git status --short | grep -E '^(AA|UU) (tools/props.d/|evidence/)' | awk '{print $2}'); do git checkout --theirs $f; done
 git checkout --ours MANIFEST.json 2>/dev/null || true
 if git status --short | grep -q '^UU harness/Cargo.toml'; then git checkout --ours harness/Cargo.toml; fi
 # add dependencies the workspace's harness has and ours lacks
